@@ -48,6 +48,10 @@ def policy_check(run, pid):
     run.level = "model_checking"
     for cfg in (["netpol_q.cfg"] if quick else ["netpol_q.cfg", "netpol_t.cfg"]):
         run.model_check("MC_NetPol", cfg, timeout=3400)
+    # behaviour of the manager (one operator per pass / handler): every synchronisation outcome is exact or of a known shape;
+    # the three-phase synchronisation proposed as the repair of P1/P2 is always exact
+    for cfg in ["polmgr_q.cfg", "polmgr_repaired.cfg"]:
+        run.model_check("MC_PolicyManager", cfg, timeout=3400)
     plan = [(60, 12, run.seed)] if quick else [(150, 14, run.seed * 1000 + k) for k in range(4)]
     syncs = flows = 0
     nontriv = set()
@@ -75,7 +79,11 @@ def policy_check(run, pid):
                                "history": compact(tr[: v["line"] - first]), "trace": tr[: v["line"] - first],
                                "how": "recorded from the real pkg/policy PolicyManager by harness/cmd/poldrive over the strict kernel model; "
                                       "re-validate with lib/tv.sh Trace_NetPol trace_netpol.cfg <file with the `trace` lines>"}, sig)
+        for d in rep["div"]:
+            run.divergences.append({"layer": "policy", "trace": d["trace"], "line": d["line"], "ev": d["ev"], "obj": d.get("obj"), "why": d.get("why")})
         st = rep["stats"]
+        run.coverage.setdefault("steps_conforming_to_PolicyManager", 0)
+        run.coverage["steps_conforming_to_PolicyManager"] += st.get("conform", 0)
         syncs += st["syncs"]
         flows += st["flows"]
         run.coverage["traces_validated_against_impl"] += st["traces"]
